@@ -32,6 +32,20 @@ def empty_universe():
     return _EMPTY
 
 
+def fresh_registry():
+    """Drop the class universes of the previous correspondence op.  XmlContext walks every live
+    dataclass when it builds its xsi index, so keeping thousands of generated universes alive makes every
+    later parser construction slower (quadratic over a thorough run).  `uni_of` re-creates a universe
+    from its description when a later stage (oracle search, replay) needs it again."""
+    import gc
+
+    for u in list(_UNIS.values()):
+        if u is not _EMPTY:
+            u.close()
+    _UNIS.clear()
+    gc.collect()
+
+
 def uni_or_empty(a):
     return uni_of(a) if a.get("desc") else empty_universe()
 
@@ -40,6 +54,7 @@ def uni_or_empty(a):
 # (a) writers
 # ============================================================================
 def gen_writers(rng, tier):
+    fresh_registry()
     for _ in range(n_cases(tier, 80, 900)):
         u, desc, ctx = new_universe(rng)
         for _ in range(5):
@@ -92,6 +107,7 @@ def classify_writers(a, o):
 
 
 def gen_indent(rng, tier):
+    fresh_registry()
     for u, ctx, desc, tree, kind in documents(rng, tier, n_cases(tier, 25, 400), 3):
         for sp in rng.sample(["  ", "\t", "", " ", "--", "\n", " \t"], 2):
             yield {"tree": tree, "space": sp, "_kind": kind}
@@ -146,6 +162,7 @@ def random_stores(rng, d, top_allowed=False):
 
 
 def gen_dtrees(rng, tier, n_uni, per_uni):
+    fresh_registry()
     for u, ctx, desc, tree, kind in documents(rng, tier, n_uni, per_uni, mutate=False):
         yield D.plain_dtree(tree)
         for _ in range(2):
@@ -237,6 +254,24 @@ def gen_hsource(rng, tier):
 def impl_hsource(a):
     return D.real_hsource(a["kind"], a["text"], bytes(a["bytes"]), a.get("raw_path") or a["path"] or None)
 
+
+
+NATIVE_KINDS = ["str", "bytes", "file", "path", "missing_path", "et_tree", "et_element"]
+
+
+def gen_native_parse(rng, tier):
+    wk = D.well_known()
+    for d in gen_dtrees(rng, tier, n_cases(tier, 25, 120), 3):
+        if rng.random() < 0.4:
+            random_stores(rng, d)
+        data = D.print_dtree(d).encode()
+        for kind in NATIVE_KINDS:
+            yield {"doc": D.dtree_strip(d), "well_known": wk, "kind": kind, "bytes": list(data),
+                   "path": "/tmp/c08-doc.xml", "_print": d}
+
+
+def impl_native_parse(a):
+    return D.real_native_parse(a["_print"], a["kind"], "/nonexistent//tmp/c08-doc.xml")
 
 
 def gen_inscope(rng, tier):
@@ -351,7 +386,8 @@ def clean_tree(xml: str):
 
 
 def gen_handlers(rng, tier, for_corr=False):
-    for u, ctx, desc, tree, kind in documents(rng, tier, n_cases(tier, 60, 300), 3, mutate=True):
+    fresh_registry()
+    for u, ctx, desc, tree, kind in documents(rng, tier, n_cases(tier, 60, 450), 3, mutate=True):
         lay = rng.random()
         try:
             d = D.plain_dtree(tree) if lay < 0.3 else D.layout(rng, tree, allow_default=default_ok(desc, tree))
@@ -553,6 +589,10 @@ CORRS = [
          describe="TreeSerializer(config).render(obj) vs the model of serializers/tree.py + LxmlTreeBuilder.build"),
     Corr("c08.lxml_writer", gen_lxml_writer, impl_lxml_writer, compare=cmp_lxml_writer,
          describe="XmlSerializer(LxmlEventWriter).render: declaration text and printed tree vs model"),
+    Corr("c08.native_parse", gen_native_parse, impl_native_parse, classify=lambda a, o: a["kind"],
+         describe="XmlParser(XmlEventHandler) with recording start/end/register_namespace: from_string / from_bytes / from_path / "
+                  "parse(file object | ElementTree | Element) and a path that cannot be opened vs model nativeParse over the World "
+                  "of the document (toHSource, nativeContext, iterwalk, pump)"),
     Corr("c08.hsource", gen_hsource, impl_hsource,
          describe="PushParser.from_string/from_bytes/from_path/parse: the source handler.parse receives vs model toHSource"),
     Corr("c08.indent", gen_indent, impl_indent, canon=drop_ns, describe="lxml.etree.indent vs the modelled tree transformation"),
@@ -602,5 +642,5 @@ LEVEL_TEXT = "proof for the Python glue of the back-ends (indentation bookkeepin
 LEVEL_NOTE = (
     "native_nsmap_inscope holds at full strength for all documents of the model (the handler keeps the in-scope maps itself); "
     "indent_ws_only holds at full strength too (mixed content included) since the native writer writes no indentation right "
-    "after character data"
+    "after character data; indent_writers_agree ties the native text to the lxml tree up to layout for every indent"
 )
